@@ -1,2 +1,167 @@
-/- placeholder: the C10 driver is not built yet -/
-def main : IO Unit := IO.println "C10: driver not built yet"
+/- C10 line-protocol driver: prints `model <TAB> spec` for each case line (formats: harness/c10.cpp). -/
+import Tetl.Proto
+import Tetl.C10.Model
+import Tetl.C10.Spec
+namespace Tetl.C10.Driver
+open Tetl Tetl.Proto Tetl.C10
+
+def FILL : Nat := 170
+
+def tyOf (s : String) : Option IntTy :=
+  match s with
+  | "i8" => some ⟨8, true⟩ | "u8" => some ⟨8, false⟩
+  | "i16" => some ⟨16, true⟩ | "u16" => some ⟨16, false⟩
+  | "i32" => some ⟨32, true⟩ | "u32" => some ⟨32, false⟩
+  | "i64" | "ill" => some ⟨64, true⟩ | "u64" | "ull" => some ⟨64, false⟩
+  | _ => none
+
+def fnTy (s : String) : Option IntTy :=
+  match s with
+  | "strtol" | "strtoll" | "atol" | "atoll" | "stol" | "stoll" => some ⟨64, true⟩
+  | "strtoul" | "strtoull" | "stoul" | "stoull" => some ⟨64, false⟩
+  | "atoi" | "stoi" => some ⟨32, true⟩
+  | _ => none
+
+/-- `v` of an unsigned type may be given as its two's complement signed reading -/
+def valueOf (t : IntTy) (v : Int) : Int := if !t.signed && v < 0 then v + 2 ^ t.bits else v
+
+def fmtE {α : Type} (f : α → String) : Except Err α → String
+  | .ok a => f a
+  | .error e => e.fmt
+
+def fmtTC : TCRes → String
+  | .ok b p => s!"ok({p},{fmtNatList b})"
+  | .tooLarge p => s!"too_large({p})"
+
+def fmtFI : FIRes → String
+  | .done b p => s!"ok({p},{fmtNatList b})"
+  | .overflow => "overflow"
+
+def fmtFC : FCRes → String
+  | .ok v p => s!"ok({v},{p})"
+  | .invalid p => s!"invalid(77,{p})"
+  | .range p => s!"range(77,{p})"
+
+def fmtP : Spec.PRes → String
+  | .ok v p => s!"ok({v},{p})"
+  | .invalid => "invalid(77,0)"
+  | .range p => s!"range(77,{p})"
+
+def fmtTI (r : TIRes) : String :=
+  match r.err with
+  | .none => s!"none({r.value},{r.endPos})"
+  | .invalid => s!"invalid({r.endPos})"
+  | .overflow => "overflow"
+
+def fmtPTI : Spec.PRes → String
+  | .ok v p => s!"none({v},{p})"
+  | .invalid => "invalid(0)"
+  | .range _ => "overflow"
+
+def txt (l : List Nat) : String := String.ofList (l.map Char.ofNat)
+
+/-- one base of `to_chars_all` on the model -/
+def allOneModel (t : IntTy) (v : Int) (b : Nat) : Except Err String := do
+  let len := (Spec.render v b).length
+  let r1 ← toChars t v (List.replicate len FILL) b
+  let r2 ← toChars t v (List.replicate (len - 1) FILL) b
+  let less := match r2 with | .ok _ _ => "<" | .tooLarge _ => ""
+  match r1 with
+  | .tooLarge _ => .ok ("E" ++ less)
+  | .ok buf p => do
+    let text := buf.take p
+    let back ← fromChars t text b
+    let rt := match back with
+      | .ok w q => if w == v && q == text.length then "" else "!"
+      | _ => "!"
+    .ok (txt text ++ less ++ rt)
+
+/-- one base of `to_chars_all` on the spec -/
+def allOneSpec (t : IntTy) (v : Int) (b : Nat) : String :=
+  let r := Spec.render v b
+  let less := match Spec.toChars v b (List.replicate (r.length - 1) FILL) with | .ok _ _ => "<" | .tooLarge _ => ""
+  let rt := match Spec.parse t false r b with
+    | .ok w q => if w == v && q == r.length then "" else "!"
+    | _ => "!"
+  txt r ++ less ++ rt
+
+def bases : List Nat := List.range' 2 35
+
+def step (_ : Unit) (l : Line) : Unit × String :=
+  let bad := ((), "bad-op\tbad-op")
+  let out (m s : String) := ((), m ++ "\t" ++ s)
+  let ty := (l.str? "ty").bind tyOf
+  let fn := (l.str? "fn").getD ""
+  match l.op with
+  | "to_chars" =>
+    match ty, l.int? "v", l.int? "base", l.nat? "len" with
+    | some t, some v, some b, some len =>
+      let v := valueOf t v
+      let buf := List.replicate len FILL
+      out (fmtE fmtTC (toChars t v buf b)) (fmtTC (Spec.toChars v b.toNat buf))
+    | _, _, _, _ => bad
+  | "from_integer" =>
+    match ty, l.int? "v", l.int? "base", l.nat? "len", l.nat? "term" with
+    | some t, some v, some b, some len, some term =>
+      let v := valueOf t v
+      let buf := List.replicate len FILL
+      out (fmtE fmtFI (fromInteger t (term != 0) v buf b)) (fmtFI (Spec.fromInteger (term != 0) v b.toNat buf))
+    | _, _, _, _, _ => bad
+  | "to_string" =>
+    match tyOf fn, l.int? "v", l.nat? "cap" with
+    | some t, some v, some cap =>
+      let v := valueOf t v
+      let f := fun (s : List Nat) => s!"ok({s.length},{fmtNatList s},1)"
+      out (fmtE f (toStr t cap v)) (f (Spec.render v 10))
+    | _, _, _ => bad
+  | "from_chars" =>
+    match ty, l.natList? "s", l.int? "base" with
+    | some t, some s, some b => out (fmtE fmtFC (fromChars t s b)) (fmtP (Spec.parse t false s b.toNat))
+    | _, _, _ => bad
+  | "to_integer" =>
+    match ty, l.natList? "s", l.int? "base", l.nat? "ws" with
+    | some t, some s, some b, some ws =>
+      out (fmtE fmtTI (toInteger t (ws != 0) s b)) (fmtPTI (Spec.parse t (ws != 0) s b.toNat))
+    | _, _, _, _ => bad
+  | "cstr" =>
+    match fnTy fn, l.natList? "s", l.int? "base" with
+    | some t, some s, some b =>
+      let sp := Spec.strto t (cstrOf s) b.toNat
+      if fn.startsWith "ato" then
+        out (fmtE toString (ato t s)) (if sp.erange then "*" else toString sp.value)
+      else
+        let f := fun (r : Int × Nat) => s!"{r.1},{r.2},0"
+        out (fmtE f (strto t (cstrOf s) b)) s!"{sp.value},{sp.endPos},{fmtBool sp.erange}"
+    | _, _, _ => bad
+  | "sto" =>
+    match fnTy fn, l.natList? "s", l.int? "base" with
+    | some t, some s, some b =>
+      let sp := Spec.strto t (cstrOf s) b.toNat
+      let f := fun (r : Int × Nat) => s!"ok({r.1},{r.2})"
+      let spOut := if sp.erange then "range" else if sp.endPos == 0 then "invalid" else s!"ok({sp.value},{sp.endPos})"
+      out (fmtE f (strto t s b)) spOut
+    | _, _, _ => bad
+  | "to_chars_all" =>
+    match ty, l.int? "v" with
+    | some t, some v =>
+      let v := valueOf t v
+      let m := bases.mapM (allOneModel t v)
+      out (fmtE (fun xs => ",".intercalate xs) m) (",".intercalate (bases.map (allOneSpec t v)))
+    | _, _ => bad
+  | "round_trip" =>
+    match ty, l.int? "v", l.int? "base" with
+    | some t, some v, some b =>
+      let v := valueOf t v
+      let f := fun (r : Option (FCRes × Nat)) =>
+        match r with
+        | none => "to_chars-failed"
+        | some (.ok w p, e) => s!"ok({w},{fmtBool (p == e)})"
+        | some (.invalid p, e) => s!"err(77,{fmtBool (p == e)})"
+        | some (.range p, e) => s!"err(77,{fmtBool (p == e)})"
+      out (fmtE f (roundTrip t v b)) s!"ok({v},1)"
+    | _, _, _ => bad
+  | _ => bad
+
+end Tetl.C10.Driver
+
+def main : IO Unit := Tetl.Proto.runDriver () Tetl.C10.Driver.step
